@@ -17,7 +17,7 @@ RULE = (
     "distinct_nontrivial = distinct (model cell, algorithm, n_subjects, n_iter, burn-in, annealing) configurations"
 )
 REQUIRED = {"calls_scipy_minimize": 15, "calls_mean_posterior": 15, "calls_mode_posterior": 15, "subjects_alignment": 300, "scipy_objective_checks": 100,
-            "mean_checks": 100, "mode_checks": 100, "kept_draw_index_checks": 30, "algorithm_object_reused": 10, "scipy_small_budget_calls": 5}
+            "mean_checks": 100, "mode_checks": 100, "kept_draw_index_checks": 30, "algorithm_object_reused": 10, "scipy_small_budget_calls": 5, "scipy_alignment_by_data_checks": 60, "cohorts_with_a_subject_without_any_value": 5}
 ASSUMPTIONS = [
     "scipy: objective compared through the algorithm's own obj_no_jac on the per-subject state (the objective's terms are C08's job); non-worsening "
     "judged at 1e-6 relative + 1e-6 absolute",
@@ -82,7 +82,22 @@ def run_shard(spec, ctx):
                                 one_visit_ok=not events, binary=binary, id_style=id_style)
                 if events and n_sub == 1:
                     continue
-                ds = gen.to_dataset(df, events=events)
+                nodata_pos = None
+                if not events and kind != "mixture_logistic" and n_sub >= 2 and rng.random() < 0.25:
+                    # one subject (not the last one) whose visits carry no value at all, kept in the cohort (reader option drop_full_nan=False)
+                    from leaspy.io.data import Data, Dataset
+
+                    nodata_pos = int(rng.integers(0, n_sub - 1))
+                    sid0 = list(dict.fromkeys(df["ID"]))[nodata_pos]
+                    feats_ = [c for c in df.columns if c not in ("ID", "TIME")]
+                    df.loc[df["ID"] == sid0, feats_] = np.nan
+                    for c in feats_:  # every feature stays observed somewhere in the cohort
+                        if df[c].isna().all():
+                            df.loc[df.index[-1], c] = 0.5 if not binary else 1.0
+                    ds = Dataset(Data.from_dataframe(df, drop_full_nan=False))
+                    ctx.count("cohorts_with_a_subject_without_any_value")
+                else:
+                    ds = gen.to_dataset(df, events=events)
             except Exception:
                 ctx.count("setup_skipped")
                 continue
@@ -104,8 +119,20 @@ def run_shard(spec, ctx):
                                                    n_iter=None, n_iter_frac=0.5))
             case = {"index": i, "rep": rep, "model": list(map(str, g)), "fitted": fitted, "algorithm": algo_name, "n_subjects": n_sub, "id_style": id_style,
                     "settings": {k: v for k, v in settings.items() if k != "seed"}}
-            algo = algorithm_factory(AlgorithmSettings(algo_name, **settings))
-            rec = {"iters": [], "scipy": []}
+            if nodata_pos is not None:
+                case["subject_without_any_value_at_position"] = nodata_pos
+            try:
+                algo = algorithm_factory(AlgorithmSettings(algo_name, **settings))
+            except Exception as e:
+                # every setting generated here is admissible (an explicit burn-in count, 0 included, replaces the fraction)
+                ctx.violation(f"personalize/{algo_name}/admissible-settings-refused", f"{algo_name} refused admissible settings: {type(e).__name__}: {str(e)[:160]}", case)
+                continue
+            rec = {"iters": [], "scipy": [], "scipy_by_data": {}}
+
+            def fingerprint(t_, y_, w_):
+                t_ = np.asarray(t_, dtype=np.float64).reshape(-1)
+                y_ = np.where(np.asarray(w_).reshape(len(t_), -1) != 0, np.asarray(y_, dtype=np.float64).reshape(len(t_), -1), np.nan)
+                return (t_.round(6).tobytes(), np.nan_to_num(y_, nan=-7.0).round(6).tobytes())
             # ---- recorders ----------------------------------------------------------------------------------
             if algo_name == "scipy_minimize":
                 orig = algo._get_individual_parameters_patient
@@ -118,6 +145,13 @@ def run_shard(spec, ctx):
                     x1 = scaling.scaling({k_: v_[0] if v_.ndim > 1 else v_ for k_, v_ in ips.items()})
                     f1 = algo.obj_no_jac(np.array(x1, dtype=float), state.clone(disable_auto_fork=True), scaling)
                     rec["scipy"].append((patient_id, float(f0), float(f1)))
+                    try:  # what the optimiser returned for the subject holding THESE observations (whatever index it was given)
+                        tw, yw = state["t"], state["y"]
+                        nv_ = int((tw.weight.reshape(-1) != 0).sum()) if tw.weight is not None else tw.value.numel()
+                        fp = fingerprint(tw.value.reshape(-1)[:nv_], yw.value.reshape(tw.value.numel(), -1)[:nv_], (yw.weight if yw.weight is not None else torch.ones_like(yw.value)).reshape(tw.value.numel(), -1)[:nv_])
+                        rec["scipy_by_data"].setdefault(fp, []).append({k_: np.asarray(v_, dtype=np.float64).reshape(-1) for k_, v_ in ips.items()})
+                    except Exception:
+                        pass
                     return out
 
                 algo._get_individual_parameters_patient = per_patient
@@ -230,8 +264,28 @@ def run_shard(spec, ctx):
                     ctx.note(f"scipy_two_workers_skipped_{type(e).__name__}", str(e)[:160])
             # ---- scipy: non-worsening -----------------------------------------------------------------------
             if algo_name == "scipy_minimize":
-                if len(rec["scipy"]) != n_sub:
-                    ctx.inconclusive_because(f"scipy recorder saw {len(rec['scipy'])} subjects, expected {n_sub}")
+                if not rec["scipy"]:
+                    ctx.inconclusive_because("scipy recorder saw no subject")
+                # keyed by the input identifiers: the estimate stored under an identifier is the one the optimiser returned for the
+                # subject holding that identifier's observations
+                for pos_, sid in enumerate(want_ids):
+                    nv_ = int(ds.n_visits_per_individual[pos_])
+                    fp = fingerprint(ds.timepoints[pos_, :nv_].numpy(), ds.values[pos_, :nv_].numpy(), ds.mask[pos_, :nv_].numpy())
+                    hits = rec["scipy_by_data"].get(fp, [])
+                    if len(hits) != 1:
+                        continue  # not optimised through the hooked routine, or two subjects with identical observations
+                    ctx.count("scipy_alignment_by_data_checks")
+                    for name, val in ip[sid].items():
+                        got_ = np.atleast_1d(np.asarray(val, dtype=np.float64)).reshape(-1)
+                        if not np.allclose(got_, hits[0][name], rtol=1e-6, atol=1e-7):
+                            ctx.violation("personalize/ids-misaligned", f"scipy_minimize: '{name}' stored under identifier {sid} is not what the optimiser returned for that "
+                                          f"subject's observations ({hits[0][name].tolist()} expected, {got_.tolist()} stored)", case)
+                            bad = True
+                            break
+                    if bad:
+                        break
+                if bad:
+                    continue
                 for pid, f0, f1 in rec["scipy"]:
                     ctx.count("scipy_objective_checks")
                     ctx.evaluated()
